@@ -128,6 +128,66 @@ fn small_type_problem(tree: &Tree, table: &Table, text: &str, compiled: bool) ->
     }
 }
 
+/// A consuming evaluation that is interrupted by a panicking user operator (and survived by the
+/// caller) leaves nothing behind: the next consuming evaluations on the thread move and clone as
+/// always.
+fn interrupted_consuming_eval(st: &mut Stats) {
+    use crate::pt::{self, Pt, BOOM, FP};
+    use crate::sym::{intern, OpSpec};
+    let table: Table = vec![OpSpec::bin(intern("+"), 0, 0, false), OpSpec::bin(intern("*"), 1, 1, false), OpSpec::un(intern("f_1"), 63)];
+    install(&table);
+    st.bump("interrupted_consuming_evaluations");
+    let r = catch(|| -> Option<String> {
+        let plain = FP::parse("x+y").ok()?;
+        let longer = FP::parse("a*b+c+d*e+f").ok()?;
+        let check = |when: &str| -> Option<String> {
+            for (e, n) in [(&plain, 2usize), (&longer, 6usize)] {
+                for iter in [false, true] {
+                    pt::reset_counters(n);
+                    let vals: Vec<Pt> = (0..n).map(Pt::var).collect();
+                    let want = e.eval(&vals).ok()?;
+                    pt::reset_counters(n);
+                    let got = if iter { e.eval_iter(vals.into_iter()) } else { e.eval_vec(vals) }.ok()?;
+                    if got.h != want.h {
+                        return Some(format!("{when}: consuming evaluation of {} differs from eval", e.unparse()));
+                    }
+                    if pt::clones().iter().any(|c| *c != 0) {
+                        return Some(format!("{when}: consuming evaluation of {} cloned variables that occur once (clone counts {:?})", e.unparse(), pt::clones()));
+                    }
+                }
+            }
+            None
+        };
+        if let Some(p) = check("before any interrupted evaluation") {
+            return Some(p);
+        }
+        for text in ["f_1(x)+y+y", "a*f_1(b)+c*c+d*e+e", "f_1(a)*b+b"] {
+            let e = FP::parse(text).ok()?;
+            let n = e.var_names().len();
+            for iter in [false, true] {
+                let mut vals: Vec<Pt> = (0..n).map(Pt::var).collect();
+                let k = if text.starts_with("a*") { 1 } else { 0 };
+                vals[k] = Pt { id: k as u32 + 1, h: BOOM };
+                let r = std::panic::catch_unwind(std::panic::AssertUnwindSafe(|| if iter { e.eval_iter(vals.into_iter()) } else { e.eval_vec(vals) }));
+                if r.is_ok() {
+                    return Some(format!("the panicking operator in {text} did not panic"));
+                }
+            }
+            if let Some(p) = check(&format!("after the consuming evaluation of {text} was interrupted by a panicking operator")) {
+                return Some(p);
+            }
+        }
+        None
+    });
+    let p = match r {
+        Ok(p) => p,
+        Err(m) => Some(format!("panic: {m}")),
+    };
+    if let Some(p) = p {
+        st.violation(format!("interrupted-consuming-eval|{}", p.chars().take(60).collect::<String>()), p.len(), json!({"kind": "consuming-eval-after-interrupted-evaluation", "problem": p}));
+    }
+}
+
 /// consuming evaluation of expressions produced by differentiation: their variable list keeps
 /// variables that no longer occur, while others occur several times
 fn derivative_case(rng: &mut crate::rng::Rng, st: &mut Stats) {
@@ -145,20 +205,31 @@ fn derivative_case(rng: &mut crate::rng::Rng, st: &mut Stats) {
         OpSpec::un(intern("exp"), 8),
     ];
     install(&table);
-    let nvars = rng.range(1, 4);
-    let gcfg = GenCfg { lit_num: 2, const_num: 0, un_num: 1, chain_num: 4, vars: (0..nvars).map(|k| ["x", "y", "z", "w"][k].to_string()).collect() };
-    let size = rng.range(1, 7);
-    let tree = gen_tree(rng, &table, size, &gcfg);
-    let text = render_plain(&tree, &table);
-    let vars = tree.vars();
-    if vars.is_empty() {
-        return;
-    }
-    let wrt = rng.below(vars.len());
-    let order = rng.range(1, 2);
+    let many = rng.chance(1, 8);
+    let (text, vars, wrt, order, shape) = if many {
+        // a derivative with far fewer nodes than variables, among them variables of high index:
+        // the sum of 65..140 variables plus a product of three of them
+        let m = rng.range(65, 140);
+        let names: Vec<String> = (0..m).map(|k| format!("v{k:03}")).collect();
+        let picks = [rng.below(m), m - 1 - rng.below(8), 64 + rng.below(m - 64)];
+        let text = format!("{}+{}*{}*{}", names.join("+"), names[picks[0]], names[picks[1]], names[picks[2]]);
+        st.bump("derivative_cases_with_65_to_140_variables");
+        (text, names, picks[rng.below(3)], 1usize, format!("many{m}"))
+    } else {
+        let nvars = rng.range(1, 4);
+        let gcfg = GenCfg { lit_num: 2, const_num: 0, un_num: 1, chain_num: 4, vars: (0..nvars).map(|k| ["x", "y", "z", "w"][k].to_string()).collect() };
+        let size = rng.range(1, 7);
+        let tree = gen_tree(rng, &table, size, &gcfg);
+        let vars = tree.vars();
+        if vars.is_empty() {
+            return;
+        }
+        let wrt = rng.below(vars.len());
+        (render_plain(&tree, &table), vars, wrt, rng.range(1, 2), tree.shape_key(&table))
+    };
     st.bump("cases");
     st.bump("derivative_cases");
-    st.class(("deriv", tree.shape_key(&table), wrt, order));
+    st.class(("deriv", shape, wrt, order));
     let n = vars.len();
     let values = |n: usize| (0..n).map(|i| Tok { term: Sym::Var(i), origin: Some(i) }).collect::<Vec<_>>();
     let r = catch(|| -> Option<String> {
@@ -180,6 +251,14 @@ fn derivative_case(rng: &mut crate::rng::Rng, st: &mut Stats) {
             }
             if got.term != b.term {
                 return Some(format!("{which} on the derivative {}: value {:?} differs from eval's {:?}", d.unparse(), got.term, b.term));
+            }
+            // a variable that occurs exactly once in the derivative is moved
+            let printed = d.unparse();
+            let cl = clones();
+            for (i, v) in vars.iter().enumerate() {
+                if printed.matches(&format!("{{{v}}}")).count() == 1 && cl[i] != 0 {
+                    return Some(format!("{which} on the derivative {printed}: variable {v} occurs once but was cloned {} time(s)", cl[i]));
+                }
             }
         }
         None
@@ -219,6 +298,10 @@ pub fn run(ctx: &Ctx) -> i32 {
                 derivative_case(rng, st);
                 install(&table);
                 continue;
+            }
+            if i % 512 == 100 {
+                interrupted_consuming_eval(st);
+                install(&table);
             }
             let compiled = rng.chance(1, 2);
             st.bump("cases");
@@ -271,6 +354,8 @@ pub fn run(ctx: &Ctx) -> i32 {
     .require("repeated_vars", 1000)
     .require("operands_observed_by_operators", 10000)
     .require("derivative_cases", 1000)
+    .require("interrupted_consuming_evaluations", 50)
+    .require("derivative_cases_with_65_to_140_variables", 200)
     .require("cases_on_the_small_plain_data_type", 10000);
     finish(ctx, stats, report)
 }
